@@ -364,6 +364,13 @@ def u_gcm(ctx, u):
         ctx.check(r == 1 and rt.value == rtype and ol.value == n and out.raw(n) == payload, 'gcm:gcm_decrypt-roundtrip', n=n, pad=pad,
                   ret=r, rtype=rt.value, outlen=ol.value)
         ctx.nontrivial('gcm-dec', n, pad, seq, rtype)
+        # the same into a block of exactly the size of the inner plaintext (what an AEAD decryption produces: the ciphertext
+        # without its tag) - lengths that are not a multiple of the cipher block are where a block-wise keystream spills
+        tight = ctx.buf(max(1, len(want) - 5 - 16))
+        ctx.begin(['tls13_gcm_decrypt-tight', n, pad])
+        r = lib.tls13_gcm_decrypt(keys.bk, keys.ivb, sb, cb, len(want) - 5, ctypes.byref(rt), tight, ctypes.byref(ol))
+        ctx.check(r == 1 and ol.value == n and tight.raw(n) == payload, 'gcm:gcm_decrypt-roundtrip', n=n, pad=pad, ret=r, outlen=ol.value, buffer='plaintext-sized')
+        tight.free()
         for b in (pb, sb, db, cb, out):
             b.free()
     ctx.sample({'kind': 'gcm', 'lengths': u['lens'][:12]})
